@@ -4,6 +4,7 @@
 set -e
 n=$1; shift
 cd /verif
+if [ -n "$(git status --short | grep -v '^??')" ]; then echo "working tree is not clean: commit or undo first"; git status --short | grep -v '^??' | head -5; exit 1; fi
 git merge --no-edit wip-$n || {
   # evidence files and the generated manifest are rewritten after the merge anyway: take the branch's side
   for f in $(git diff --name-only --diff-filter=U | grep -E '^evidence/|^MANIFEST.json$|^seeded/README.md$' || true); do git checkout --theirs -- $f; git add $f; done
